@@ -34,8 +34,7 @@ impl AzksParallelismConfig {
     pub fn default() -> Self { unimplemented!() }
 }
 
-// bit-string prefix relation on labels; its meaning is fixed in unit node_label (C17), here only the relation matters
-pub uninterp spec fn pfx(a: NodeLabel, b: NodeLabel) -> bool;
+// (pfx is the bit-string prefix relation of contracts/common/label_spec.rs)
 // the set of subtree roots / leaves an append-only proof stands for must be pairwise unrelated (disjoint subtrees):
 // "a proof whose node set shadows, duplicates or overlaps part of the earlier tree ... is rejected" (C09)
 pub open spec fn prefix_free(s: Seq<AzksElement>) -> bool {
@@ -66,3 +65,48 @@ pub open spec fn consecutive_ok<TC: Configuration>(p: SingleAppendOnlyProof, sta
 pub proof fn axiom_digest_eq()
     ensures forall|a: [u8; 32], b: [u8; 32]| #[trigger] vstd::std_specs::cmp::PartialEqSpec::eq_spec(&a, &b) == (a == b)
 {}
+
+// ---- assumed std specifications used by the node-set validation
+// <[u8; 32] as Ord>::cmp is the byte-wise lexicographic order (cross-checked by the Kani harness c17_cmp_contract)
+pub uninterp spec fn arr_cmp<T, const N: usize>(a: [T; N], b: [T; N]) -> core::cmp::Ordering;
+pub assume_specification<T: core::cmp::Ord, const N: usize>[ <[T; N] as core::cmp::Ord>::cmp ](a: &[T; N], b: &[T; N]) -> (r: core::cmp::Ordering)
+    ensures r == arr_cmp(*a, *b);
+#[verifier::external_body]
+pub proof fn axiom_arr_cmp_bytes()
+    ensures forall|a: [u8; 32], b: [u8; 32]| #![trigger arr_cmp(a, b)]
+        ((arr_cmp(a, b) is Less) <==> bytes_lt(a, b)) && ((arr_cmp(a, b) is Greater) <==> bytes_lt(b, a)) && ((arr_cmp(a, b) is Equal) <==> a == b)
+{}
+pub assume_specification[ core::cmp::Ordering::then ](a: core::cmp::Ordering, b: core::cmp::Ordering) -> (r: core::cmp::Ordering)
+    ensures r == (if a is Equal { b } else { a });
+// sort_unstable_by: the result is a rearrangement of the input (every old position has its own new position) and is ordered by the comparator
+// (the two existentials say: the result is a rearrangement of the input)
+pub assume_specification<T, F: FnMut(&T, &T) -> core::cmp::Ordering>[ <[T]>::sort_unstable_by::<F> ](s: &mut [T], compare: F)
+    ensures
+        final(s)@.len() == old(s)@.len(),
+        exists|q: Seq<int>| #[trigger] rearranged(old(s)@, final(s)@, q),
+        exists|p: Seq<int>| #[trigger] drawn_from(final(s)@, old(s)@, p),
+        forall|i: int, j: int| #![trigger final(s)@[i], final(s)@[j]] 0 <= i < j < final(s)@.len() ==>
+            exists|o: core::cmp::Ordering| #[trigger] compare.ensures((&final(s)@[i], &final(s)@[j]), o) && !(o is Greater);
+
+// every position i of `old` has its own position q[i] in `new` holding the same element
+pub open spec fn rearranged<T>(old: Seq<T>, new: Seq<T>, q: Seq<int>) -> bool {
+    q.len() == old.len()
+    && (forall|i: int| 0 <= i < q.len() ==> 0 <= #[trigger] q[i] < new.len() && old[i] == new[q[i]])
+    && (forall|i: int, j: int| 0 <= i < q.len() && 0 <= j < q.len() && i != j ==> #[trigger] q[i] != #[trigger] q[j])
+}
+// every element of `new` is an element of `old`
+pub open spec fn drawn_from<T>(new: Seq<T>, old: Seq<T>, p: Seq<int>) -> bool {
+    p.len() == new.len() && (forall|k: int| 0 <= k < p.len() ==> 0 <= #[trigger] p[k] < old.len() && new[k] == old[p[k]])
+}
+pub open spec fn wf_nodes(s: Seq<AzksElement>) -> bool { forall|i: int| 0 <= i < s.len() ==> wf(#[trigger] s[i].label) }
+// labels[i] is the canonical form of nodes[i].label
+pub open spec fn canon_of(c: NodeLabel, l: NodeLabel) -> bool { c.label_len == l.label_len && canon(c) && agree(c, l, l.label_len as int) }
+
+// prefix relation only looks at the bits below the lengths, so it is the same on canonical forms
+pub proof fn lemma_pfx_canon(ca: NodeLabel, a: NodeLabel, cb: NodeLabel, b: NodeLabel)
+    requires canon_of(ca, a), canon_of(cb, b)
+    ensures pfx(ca, cb) == pfx(a, b)
+{
+    if pfx(a, b) { assert forall|i: int| 0 <= i < ca.label_len implies bit(ca, i) == bit(cb, i) by { assert(bit(ca, i) == bit(a, i)); assert(bit(cb, i) == bit(b, i)); } }
+    if pfx(ca, cb) { assert forall|i: int| 0 <= i < a.label_len implies bit(a, i) == bit(b, i) by { assert(bit(ca, i) == bit(a, i)); assert(bit(cb, i) == bit(b, i)); } }
+}
